@@ -622,6 +622,7 @@ def run(tier: str, seed: int) -> int:
                           'model_answers': rr['model'], 'predicate_failures': rr['fails']}, found_input=bool(rr['fails']))
     n_tab = check_tables(oc, rng, tier, stats)
     library_clause(oc, tier, stats)
+    sem = common.pysem_stage(oc, PROP, ['export'], seed, tier)
     if not proof_ok and not oc.violations:
         oc.violation({'property': PROP, 'kind': 'proof-obligation-broken', 'unchecked': lean.get('failed'),
                       'build_output': lean.get('build_output', '')[-3000:], 'axioms': lean.get('axioms')},
@@ -637,6 +638,7 @@ def run(tier: str, seed: int) -> int:
                                                'REPEAT blocks, num_measurements, target_rec range check'],
         'theorems': lean.get('theorems', []),
         'axioms': lean.get('axioms', {}),
+        **sem,
         'evaluations': len(results) + stats.get('single_operation_cases', 0) + len(stats.get('library', [])),
         'distinct_nontrivial': len(nontriv),
         'rule': RULE,
